@@ -61,6 +61,10 @@ def run(ctx: RuleContext):
     # C05's balance / no-suspension clauses
     ctx.reuse("C02.8", _frame_discipline, ctx, r)
     ctx.sub(check_defaults_applied, ctx, r, "C02.9")
+    # "in declaration order": within one annotation the axes are matched left to right too (C01.4: prefix before suffix, agreeing slices)
+    from .c01 import check_slice_agreement
+
+    ctx.reuse("C02.10", check_slice_agreement, ctx)
 
 
 def _frame_discipline(ctx, r):
@@ -382,4 +386,4 @@ def check_defaults_applied(ctx, r, tag="C02.9"):
             ctx.bad(tag, w, b, f"`{var}.apply_defaults()` is not called between `{short(b, 40)}` and the push: omitted parameters (defaults, an absent *args / **kwargs) are missing from the "
                     "argument table, so a `{name}` axis that refers to one raises NameError -> AnnotationError on a well-typed call", construct=f"{var}.apply_defaults() missing")
     ctx.counters["bind_sites_with_push"] = n
-    ctx.floor(tag, "bind_sites_with_push", 2)
+    ctx.floor(tag, "bind_sites_with_push", 1)
